@@ -63,14 +63,26 @@ type session struct {
 
 // openSession connects a library Client to a fresh peer that answers CONNACK 0.
 func openSession(policy rawclient.AckPolicy, bufSize int64) (*session, error) {
+	return openSessionID(policy, bufSize, uniqueCID("cl"))
+}
+
+// openSessionID is openSession with a given client identifier. A panic inside Client.Connect is
+// returned as an error that starts with "panic:".
+func openSessionID(policy rawclient.AckPolicy, bufSize int64, cid string) (*session, error) {
 	p, err := newPeer()
 	if err != nil {
 		return nil, err
 	}
-	cid := uniqueCID("cl")
 	cln := &service.Client{ConnectTimeout: 5, BufferSize: bufSize}
 	errc := make(chan error, 1)
-	go func() { errc <- cln.Connect(p.uri, clientConnectMsg(cid, 600)) }()
+	go func() {
+		defer func() {
+			if r := recover(); r != nil {
+				errc <- fmt.Errorf("panic: %v", r)
+			}
+		}()
+		errc <- cln.Connect(p.uri, clientConnectMsg(cid, 600))
+	}()
 	conn, err := p.acceptRaw(5 * time.Second)
 	if err != nil {
 		p.close()
